@@ -432,7 +432,12 @@ type calcCase struct {
 	Pat   int     `json:"pat"`
 	Ref   mTree   `json:"ref"`
 	Trees []mTree `json:"trees"`
-	K     *int    `json:"k,omitempty"`
+	Tips  []struct {
+		Nm string   `json:"nm"`
+		St []string `json:"st"`
+	} `json:"tips,omitempty"`
+	Extra map[string]interface{} `json:"extra,omitempty"`
+	K     *int                   `json:"k,omitempty"`
 }
 
 func init() {
